@@ -81,7 +81,8 @@ func C20(o *world.Obs) *Result {
 			r.Fail("C20", "bg-validators", ex.Idx, "background revalidation of s%d: %s; %s", src.Serial, d, SummarizeExchange(o, ex))
 		}
 		// cancellation
-		callerCancelled := ex.Req.CancelNs != 0
+		// a caller deadline later than start+timeout changes nothing; an earlier one may cut it short
+		callerCancelled := ex.Req.CancelNs != 0 || (ex.Req.DeadlineNs > 0 && ex.StartNs+ex.Req.DeadlineNs < c.StartNs+T)
 		deadline := c.StartNs + T
 		if !c.HasDeadline {
 			r.Fail("C20", "bg-no-deadline", ex.Idx, "background request context has no deadline; %s", SummarizeExchange(o, ex))
